@@ -136,6 +136,17 @@ M = {
   ('zero-width results not memoised', 'sourcer/translator.py', "            stack.pop()\n            memo[key] = result", "            stack.pop()\n            if result[2] != key[2]:\n                memo[key] = result"),
   ('memo skipped at position 0', 'sourcer/translator.py', "            stack.pop()\n            memo[key] = result", "            stack.pop()\n            if key[2]:\n                memo[key] = result"),
  ],
+ 'C19': [
+  ('Some = exactly one', 'sourcer/expressions/sugar.py', "    return List(expr, min_len=1)", "    return List(expr, min_len=1, max_len=1)"),
+  ('{m,} read as {m,m}', 'sourcer/translator.py', "            start = uncook(op.start)\n            stop = uncook(op.stop)", "            start = uncook(op.start)\n            stop = uncook(op.stop)\n            if stop is None and start is not None:\n                stop = start"),
+  ('Sep constructor default trailer', 'sourcer/expressions/sep.py', "            discard_separators=True,\n            allow_trailer=False,", "            discard_separators=True,\n            allow_trailer=True,"),
+  ('uppercase I suffix ignored', 'sourcer/translator.py', "        ignore_case = tree.value.endswith(('i', 'I'))\n        value = ast.literal_eval(tree.value[:-1] if ignore_case else tree.value)", "        ignore_case = tree.value.endswith(('i', 'I'))\n        value = ast.literal_eval(tree.value[:-1] if ignore_case else tree.value)\n        ignore_case = tree.value.endswith('i')"),
+  ('Choice constructor not flattened + reversed', 'sourcer/expressions/choice.py', "    def __init__(self, *exprs):\n        self.exprs = exprs", "    def __init__(self, *exprs):\n        self.exprs = exprs if len(exprs) < 3 else (exprs[0], exprs[2], exprs[1]) + tuple(exprs[3:])"),
+  ('Left constructor = Right', 'sourcer/expressions/sugar.py', "def Left(expr1, expr2):\n    return Discard(expr1, expr2, discard_left=False)", "def Left(expr1, expr2):\n    return Discard(expr1, expr2, discard_left=True)"),
+  ('List max_len off by one in ctor', 'sourcer/expressions/list.py', "        self.max_len = max_len\n        _check", "        self.max_len = max_len + 1 if isinstance(max_len, int) and not isinstance(max_len, bool) else max_len\n        _check"),
+  ('infix /? loses trailer', 'sourcer/translator.py', "            '/?': lambda a, b: ex.Sep(a, b, allow_trailer=True),", "            '/?': lambda a, b: ex.Sep(a, b, allow_trailer=False),"),
+  ('where and |> swapped', 'sourcer/translator.py', "            '<|': lambda a, b: ex.Apply(a, b, apply_left=True),", "            '<|': lambda a, b: ex.Apply(a, b, apply_left=False),"),
+ ],
  'C03': [
   ('sep drop pop', 'sourcer/expressions/sep.py', "                    with out.IF(staging):\n                        out += staging.pop()\n", "                    pass\n"),
   ('sep require_separator empty', 'sourcer/expressions/sep.py', "Code(f'not {staging} or {saw_separator}')", "Code(f'{saw_separator}')"),
